@@ -54,7 +54,10 @@ func (d *durTrack) acceptable(db *DB, tag string) {
 
 // hC06: history with durability points (explicit Sync, or every write in
 // sync-after-write mode), power failure at a symbolic instant, recovery.
-func hC06(n, prefix, L, vlen, syncMode int, midOp bool) {
+func hC06(n, prefix, L, vlen, syncMode int, midOp bool) { hC06x(n, prefix, L, vlen, syncMode, midOp, false) }
+
+// afterRecovery: the session under test itself starts with a crash recovery
+func hC06x(n, prefix, L, vlen, syncMode int, midOp bool, afterRecovery bool) {
 	pfs := &powerFS{inner: fs.Mem, segsOnly: true}
 	rec := 10 + 8 + vlen
 	mk := func(fsys fs.FileSystem) *Options {
@@ -81,6 +84,16 @@ func hC06(n, prefix, L, vlen, syncMode int, midOp bool) {
 		if syncMode == 1 {
 			d.checkpoint(r)
 		}
+	}
+	if afterRecovery {
+		// the process dies (nothing is lost: no power failure yet) and the next session recovers
+		fs.VerifDropHandles()
+		db, err = Open(dir, mk(pfs))
+		vAssert(err == nil, "C06.recovering-open")
+		if err != nil {
+			return
+		}
+		vCover("C06.session-started-with-recovery")
 	}
 	pfs.armed = midOp
 	failed := false
@@ -188,6 +201,7 @@ func H_C06_compact() { hC06compact(2, 2, 2) }
 
 func H_C06_q()     { hC06(2, 2, 3, 2, 0, false) }
 func H_C06_sw()    { hC06(2, 1, 2, 2, 1, false) }
+func H_C06_rec()   { hC06x(2, 2, 2, 2, 0, false, true) }
 func H_C06_t()     { hC06(2, 2, 4, 2, 0, false) }
 func H_C06_mid()   { hC06(2, 2, 2, 2, 0, true) }
 func H_C06_swmid() { hC06(2, 1, 2, 2, 1, true) }
